@@ -559,7 +559,47 @@ func (c *FCtx) transferred(key string) bool {
 }
 
 // havocLoopHeap forgets the heap locations a loop body may write.
+// havocLoopGhosts forgets the ghost globals assigned by "at" clauses anchored inside the loop body.
+func (c *FCtx) havocLoopGhosts(st *State, body *ast.BlockStmt) {
+	if c.Contract == nil || body == nil {
+		return
+	}
+	lo, hi := body.Pos(), body.End()
+	in := map[string]bool{}
+	for pos, ord := range c.callOrd {
+		if lo <= pos && pos <= hi {
+			in["call "+ord] = true
+			in["before call "+ord] = true
+		}
+	}
+	for pos, ord := range c.stmtOrd {
+		if lo <= pos && pos <= hi {
+			in["before "+ord] = true
+		}
+	}
+	for _, at := range c.Contract.Ats {
+		if !in[at.Where] {
+			continue
+		}
+		for _, cl := range at.Clauses {
+			if cl.Kind != "ghost" {
+				continue
+			}
+			k := strings.Index(cl.Text, "=")
+			if k < 0 {
+				continue
+			}
+			name := strings.TrimSpace(cl.Text[:k])
+			if gt, ok := c.W.Specs.GhostVars[name]; ok {
+				srt, _ := c.specSort(gt)
+				st.heap["G$"+name] = c.freshVar("G$"+name, SArr(SInt, srt))
+			}
+		}
+	}
+}
+
 func (c *FCtx) havocLoopHeap(e *Env, st *State, body *ast.BlockStmt, extra []ast.Node, spec *LoopSpec, entry *State) {
+	c.havocLoopGhosts(st, body)
 	if spec != nil && len(spec.Modifies) > 0 {
 		se := &SpecEnv{C: c, Pkg: e.Pkg, B: c.topBindings, Cur: st, Old: c.entry, Env: e}
 		for _, m := range spec.Modifies {
